@@ -110,7 +110,8 @@ Inductive ev :=
 | EBump (n : N)                        (* other TransportServices draw n ids from the shared counter *)
 | EShutSub (c : N)
                    (* the protocol shuts down the write half of a substream of c it keeps holding *)
-| EOpenFull (p : N).                   (* open_substream(p) while the primary's command channel is full *)
+| EOpenFull (p : N)                    (* open_substream(p) while the primary's command channel is full *)
+| EForce (p : N) (fs fp : bool).       (* force_close(p); fs / fp: the secondary's / primary's command channel is full *)
 
 Inductive out :=
 | OEst (p : N)                         (* TransportEvent::ConnectionEstablished *)
@@ -122,6 +123,8 @@ Inductive out :=
 | OCmd (c id : N)                      (* OpenSubstream{id} appeared on the command channel of connection c *)
 | ODown (p c : N)                      (* the handle of (p,c) went Active -> Inactive (keep-alive timeout) *)
 | OPanic                               (* debug_assert!(false): closed event for an unknown peer *)
+| OForce (c : N)                       (* ForceClose appeared on the command channel of connection c *)
+| ORetF (r : N)                        (* force_close returned: 0 Ok, 1 PeerDoesntExist, 2 ConnectionClosed, 3 ChannelClogged *)
 | OSkip.                               (* the environment could not perform the input (no permit / not pending) *)
 
 (* ---- handles inside contexts ---- *)
@@ -304,6 +307,23 @@ Definition on_open_full (s : st) (p : N) : st * list out :=
       else (s, [ORet 2 0])
   end.
 
+(* TransportService::force_close: ForceClose is sent to the secondary first (its result is
+   ignored), then to the primary, whose result is returned. ConnectionHandle::force_close sends
+   through the strong sender, or through an upgraded weak one (ConnectionClosed when no strong
+   sender is left), with try_send (ChannelClogged when the channel is full). The command carries
+   no permit, and nothing in the service changes. *)
+Definition force_one (s : st) (h : handle) (full : bool) : list out * N :=
+  if h_act h || (0 <? strong s (h_id h)) then
+    if full then ([], 3) else ([OForce (h_id h)], 0)
+  else ([], 2).
+Definition force_outs (s : st) (p : N) (fs fp : bool) : list out :=
+  match find_ctx p (s_ctxs s) with
+  | None => [ORetF 1]
+  | Some cx =>
+      match c_sec cx with Some h => fst (force_one s h fs) | None => [] end ++
+      fst (force_one s (c_prim cx) fp) ++ [ORetF (snd (force_one s (c_prim cx) fp))]
+  end.
+
 Definition handle_ev (s : st) (e : ev) : st * list out :=
   match e with
   | ENone => (s, [])
@@ -349,6 +369,7 @@ Definition handle_ev (s : st) (e : ev) : st * list out :=
       | None => (s, [OSkip])
       end
   | EOpenFull p => on_open_full s p
+  | EForce p fs fp => (s, force_outs s p fs fp)
   end.
 
 (* SPECIFICATION of "keep-alive activity" (independent of the handlers above): which (peer,
